@@ -23,6 +23,29 @@ for m in re.finditer(r"^######## (C\d+)/([a-z])\n(.*?)(?=^######## |\Z)", logs, 
 out_root = "/verif/seeded"
 os.makedirs(out_root, exist_ok=True)
 summary = []
+def one(job):
+    prop, v, d, ver = job
+    dst = os.path.join(out_root, prop + REN.get(v, v))
+    first_eval = None
+    if os.path.exists(os.path.join(dst, "meta.json")):
+        first_eval = json.load(open(os.path.join(dst, "meta.json"))).get("fired_at_first_evaluation")
+    shutil.rmtree(dst, ignore_errors=True)
+    shutil.copytree(d, dst)
+    meta = json.load(open(os.path.join(dst, "meta.json")))
+    r = subprocess.run(["/verif/tools/seedcheck.sh", d], capture_output=True, text=True)
+    fired = re.findall(r"^FIRED (C\d+)", r.stdout, re.M)
+    rules = sorted(set(re.findall(r"^  \S+ (R\w+) ", r.stdout, re.M)))
+    first = [l.strip()[:300] for l in r.stdout.splitlines() if l.startswith("  ")][:3]
+    meta.update({
+        "property": prop, "variant": REN.get(v, v),
+        "verified_by_me": dict(ver, how="tools/seedcheck.sh <dir> verify: demo copied into a scratch worktree of /repo HEAD, run on the unchanged tree (must pass), patch applied with git apply, demo re-run (must fail), demo removed, go build ./... and go test -vet=off -count=1 ./memdb ./resp ./server ./util ./raftexample on the patched tree"),
+        "fired_at_first_evaluation": first_eval if first_eval is not None else fired,
+        "caught_by_checks": fired, "caught_by_rules": rules, "first_reports": first,
+    })
+    json.dump(meta, open(os.path.join(dst, "meta.json"), "w"), indent=1)
+    return (prop + REN.get(v, v), fired, rules)
+
+jobs = []
 for prop in sorted(os.listdir(src)):
     for v in ("a", "b", "c"):
         d = os.path.join(src, prop, v)
@@ -32,26 +55,12 @@ for prop in sorted(os.listdir(src)):
         if not ver or ver["demo_exit_unchanged_tree"] != 0 or ver["demo_exit_patched_tree"] == 0:
             print("SKIP (not verified)", prop, v, ver)
             continue
-        dst = os.path.join(out_root, prop + REN.get(v, v))
-        first_eval = None
-        if os.path.exists(os.path.join(dst, "meta.json")):
-            first_eval = json.load(open(os.path.join(dst, "meta.json"))).get("fired_at_first_evaluation")
-        shutil.rmtree(dst, ignore_errors=True)
-        shutil.copytree(d, dst)
-        meta = json.load(open(os.path.join(dst, "meta.json")))
-        r = subprocess.run(["/verif/tools/seedcheck.sh", d], capture_output=True, text=True)
-        fired = re.findall(r"^FIRED (C\d+)", r.stdout, re.M)
-        rules = sorted(set(re.findall(r"^  \S+ (R\w+) ", r.stdout, re.M)))
-        first = [l.strip()[:300] for l in r.stdout.splitlines() if l.startswith("  ")][:3]
-        meta.update({
-            "property": prop, "variant": REN.get(v, v),
-            "verified_by_me": dict(ver, how="tools/seedcheck.sh <dir> verify: demo copied into a scratch worktree of /repo HEAD, run on the unchanged tree (must pass), patch applied with git apply, demo re-run (must fail), demo removed, go build ./... and go test -vet=off -count=1 ./memdb ./resp ./server ./util ./raftexample on the patched tree"),
-            "fired_at_first_evaluation": first_eval if first_eval is not None else fired,
-            "caught_by_checks": fired, "caught_by_rules": rules, "first_reports": first,
-        })
-        json.dump(meta, open(os.path.join(dst, "meta.json"), "w"), indent=1)
-        summary.append((prop + REN.get(v, v), fired, rules))
-        print(prop + REN.get(v, v), fired, rules)
+        jobs.append((prop, v, d, ver))
+from concurrent.futures import ThreadPoolExecutor
+with ThreadPoolExecutor(max_workers=int(os.environ.get("SAVESEEDS_JOBS", "6"))) as ex:
+    for res in ex.map(one, jobs):
+        summary.append(res)
+        print(*res)
 sf = os.path.join(out_root, "SUMMARY.json")
 old = json.load(open(sf)) if os.path.exists(sf) else []
 new = {e["seed"]: e for e in old}
